@@ -227,6 +227,37 @@ def producers(rep):
     rg = [c for c in walk_local(tr.node) if isinstance(c, ast.Call) and call_name(c) == "_rule_grammar"]
     ok = bool(rg) and [norm(a) for a in rg[0].args[:3]] == ["L", "R", "K"]
     rep.ob("O10.2", "SIB", tr, ok, rg[0] if rg else "_rule_grammar", "and hands them on in that order")
+    # the ids of charge-changing atoms are computed on the SAME numbering that is written out
+    for reindex in (True, False):
+        known = {"reindex": reindex, "explicit_hydrogen": False}
+        try:
+            paths = walk_paths(tr.node.body, known)
+        except Undecided as exc:
+            rep.ob("O10.2", "SIB", tr, None, "transform", str(exc))
+            continue
+        for pth in paths:
+            env = {a: a for a in tr.params}
+            verdict = None
+            for st in pth.stmts:
+                if isinstance(st, ast.Assign) and len(st.targets) == 1:
+                    t = st.targets[0]
+                    val = _sym(st.value, env, known)
+                    if isinstance(t, ast.Name):
+                        env[t.id] = val
+                    elif isinstance(t, ast.Tuple):
+                        for i, e in enumerate(t.elts):
+                            if isinstance(e, ast.Name):
+                                env[e.id] = f"{val}[{i}]"
+                    for c in ast.walk(st.value):
+                        if isinstance(c, ast.Call) and call_name(c) == "_rule_grammar" and len(c.args) >= 5:
+                            Ls, Rs = env.get("L", "L"), env.get("R", "R")
+                            ids = env.get(norm(c.args[4]), norm(c.args[4]))
+                            want = f"NXToGML._find_changed_nodes({_wrap(Ls)}, {_wrap(Rs)}, attributes)"
+                            verdict = (ids.replace(" ", "") == want.replace(" ", ""), ids, want)
+            if verdict is not None:
+                rep.ob("O10.2", "SIB", tr, verdict[0], f"reindex={reindex}: changed ids = {verdict[1][:90]}",
+                       "the list of charge-changing atoms refers to the numbering of the graphs that are written (computed after any re-indexing)",
+                       {"expected": verdict[2][:120]})
     gr = rep.f(N2G, "NXToGML._rule_grammar")
     secs = [(norm(c.args[0]), const(c.args[1])) for c in walk_local(gr.node) if isinstance(c, ast.Call) and call_name(c) == "_convert_graph_to_gml"]
     rep.ob("O10.2", "SIB", gr, sorted(secs) == sorted([("L", "left"), ("K", "context"), ("R", "right")]), secs, "L is written as 'left', K as 'context', R as 'right'")
@@ -327,6 +358,16 @@ def hydrogens(rep):
         ok = kinds == ["add_edge", "add_node"] and is_const(kwarg(an[0], "element"), "H") and is_const(kwarg(an[0], "hcount"), 0) \
             and norm(ae[0].args[0]) == "heavy" and norm(ae[0].args[1]) == norm(an[0].args[0]) and const(kwarg(ae[0], "order")) == 1
         rep.ob("O10.4", "R15", ex, ok, [norm(c)[:50] for c in adds], "each new atom is a hydrogen with no hydrogens of its own, single-bonded to the heavy atom")
+    # fresh identifiers: the counter starts at the largest existing id and is advanced before every use
+    mx = [x for x in d.get("max_node", []) if x.kind == "assign"]
+    src = norm(mx[0].value).replace(" ", "") if mx else ""
+    ok = src in ("max(H2.nodes)ifH2.nodeselse0", "max(H2.nodes,default=0)", "max(H2.nodes())ifH2.nodes()else0", "max(H2.nodes(),default=0)", "max(H2)ifH2else0")
+    rep.ob("O10.4", "R15", ex, ok if mx else None, mx[0].stmt if mx else "max_node", "new hydrogen ids start above the largest existing node id (they can never overwrite an atom)")
+    if lp:
+        inc = [n for n in lp[0].body if isinstance(n, ast.AugAssign) and norm(n.target) == "max_node" and isinstance(n.op, ast.Add) and is_const(n.value, 1)]
+        first_use = [c for c in walk_local(lp[0]) if isinstance(c, ast.Call) and call_name(c) == "add_node"]
+        ok = len(inc) == 1 and bool(first_use) and inc[0].lineno < first_use[0].lineno and norm(first_use[0].args[0]) == "max_node"
+        rep.ob("O10.4", "R15", ex, ok, inc[0] if inc else "max_node += 1", "the id counter is advanced before each new hydrogen is created")
     sub = [n for n in walk_local(ex.node) if isinstance(n, ast.AugAssign) and norm(n.target).replace(" ", "") == "H2.nodes[heavy]['hcount']"]
     ok = len(sub) == 1 and isinstance(sub[0].op, ast.Sub) and norm(sub[0].value) == "count" and not [l for l in enclosing_loops(pm, sub[0], ex.node) if l in lp]
     rep.ob("O10.4", "R15", ex, ok, sub[0] if sub else "hcount -= count", "the implicit count is reduced by exactly the number of hydrogens made explicit (total hydrogen count unchanged)")
